@@ -20,7 +20,8 @@ RULE = ("Hypothesis draws histories (<=30 calls) of store_metadata / retrieve_me
         "on a simulated file system with coarse (1 h) timestamp granularity (stat results truncated at the OS "
         "boundary). Non-trivial = >=2 "
         "(pid, format) pairs alive at once and >=1 overwrite, delete-all or delete_object; distinct key "
-        "= sequence of (op, pid, format class, outcome).")
+        "= sequence of (op, pid, format class, outcome)."
+        ' One case in three inserts a ping-pong: the same document stored as v1 by one instance, v2 by a second instance on the same directory, v1 again by the first.')
 ASSUMPTIONS = ["single thread", "format ids are non-empty strings without whitespace, or omitted"]
 PIDS = ["a", "ab", "abc", "b"]
 NS = common.DEFAULT_NS
